@@ -129,11 +129,11 @@ prop("C11", [
               "thorough": ["--K=5", "--comb=3", "--prefix=3", "--tab-log2=25", "--timeout-ms=1200000", "--deadline-s=2400"]}},
     # the combinators' inputs settled by two threads at once (the same controlled scheduler and harness as C12)
     {"name": "c11_combinators_mt", "sources": ["c12_async.cc"], "c_sources": ["common/vsched.c"], "flavour": "asan",
-     "args": {"quick": ["--from=13", "--maxbound=2", "--timeout-ms=40000", "--deadline-s=170"],
-              "thorough": ["--from=13", "--thorough=1", "--maxbound=3", "--timeout-ms=3000000", "--deadline-s=1200"]}},
+     "args": {"quick": ["--from=13", "--to=17", "--maxbound=2", "--timeout-ms=40000", "--deadline-s=170"],
+              "thorough": ["--from=13", "--to=17", "--thorough=1", "--maxbound=3", "--timeout-ms=3000000", "--deadline-s=1200"]}},
     {"name": "c11_combinators_mt_tsan", "sources": ["c12_async.cc"], "c_sources": ["common/vsched.c"], "flavour": "tsan",
-     "args": {"quick": ["--from=13", "--maxbound=1", "--timeout-ms=40000", "--deadline-s=170"],
-              "thorough": ["--from=13", "--maxbound=2", "--timeout-ms=3000000", "--deadline-s=1200"]}},
+     "args": {"quick": ["--from=13", "--to=17", "--maxbound=1", "--timeout-ms=40000", "--deadline-s=170"],
+              "thorough": ["--from=13", "--to=17", "--maxbound=2", "--timeout-ms=3000000", "--deadline-s=1200"]}},
 ],
     rule="one case = all programs of exactly K operations below one 3-operation prefix; operations: create "
          "(pending / resolved / rejected Promise<int>), then(h, {value, void, promise-returning with inner resolved / "
@@ -170,11 +170,11 @@ prop("C13", [
 
 prop("C12", [
     {"name": "c12_async", "sources": ["c12_async.cc"], "c_sources": ["common/vsched.c"], "flavour": "asan",
-     "args": {"quick": ["--to=12", "--maxbound=2", "--timeout-ms=40000", "--deadline-s=170"],
-              "thorough": ["--to=12", "--thorough=1", "--maxbound=3", "--timeout-ms=3000000", "--deadline-s=2400"]}},
+     "args": {"quick": ["--to=12", "--also-from=18", "--maxbound=2", "--timeout-ms=40000", "--deadline-s=170"],
+              "thorough": ["--to=12", "--also-from=18", "--thorough=1", "--maxbound=3", "--timeout-ms=3000000", "--deadline-s=2400"]}},
     {"name": "c12_async_tsan", "sources": ["c12_async.cc"], "c_sources": ["common/vsched.c"], "flavour": "tsan",
-     "args": {"quick": ["--to=12", "--maxbound=1", "--timeout-ms=40000", "--deadline-s=170"],
-              "thorough": ["--to=12", "--maxbound=2", "--timeout-ms=3000000", "--deadline-s=1200"]}},
+     "args": {"quick": ["--to=12", "--also-from=18", "--maxbound=1", "--timeout-ms=40000", "--deadline-s=170"],
+              "thorough": ["--to=12", "--also-from=18", "--maxbound=2", "--timeout-ms=3000000", "--deadline-s=1200"]}},
 ],
     rule="one case = (scenario, preemption bound): two or three real threads on real Async::Promise objects - "
          "{resolve || then}, {resolve || then;then}, {reject || then}, {settle p || then on a promise derived from p by "
